@@ -16,7 +16,7 @@ pub const FLOORS: &[&str] = &[
     "goto:refused", "break_add:accepted", "break_add:refused", "break_remove", "loc:label", "loc:pc",
     "loc:abs", "label_offset_crosses_8000", "pc_offset_overflows_16_bits", "offset_beyond_i16_rejected",
     "inspect", "addr:0", "addr:orig-1", "addr:orig", "addr:x7FFF", "addr:x8000", "addr:xFDFF",
-    "addr:xFE00", "addr:xFFFF", "origin_high", "origin_low",
+    "addr:xFE00", "addr:xFFFF", "origin_high", "origin_low", "predefined_breakpoint_outside_user_space",
 ];
 
 const CMDS_PER_SESSION: u64 = 120;
@@ -34,6 +34,29 @@ pub fn run(cfg: &Cfg, col: &mut Collector) {
 }
 
 fn program(rng: &mut Rng, orig: u16) -> (String, RefImage) {
+    if orig == 0xFDF0 {
+        // image fills 0xFDF0..=0xFDFF exactly; the trailing `.break` marks 0xFE00, the first
+        // address outside user space
+        let mut items = vec![Item::Orig(orig as i32)];
+        let names = ["first", "mid", "data", "last"];
+        for k in 0..16 {
+            let label = match k {
+                0 => Some(names[0]),
+                7 => Some(names[1]),
+                14 => Some(names[2]),
+                15 => Some(names[3]),
+                _ => None,
+            };
+            items.push(Item::Stmt { label: label.map(|s| s.to_string()), stmt: Stmt::AddI(1, 1, 1) });
+        }
+        items.push(Item::Break);
+        let p = Program { items };
+        let img = match encode(&p) {
+            Verdict::Accept(img) => img,
+            _ => unreachable!("fixed-shape program"),
+        };
+        return (render(&p, &Layout::canonical(), rng).text, img);
+    }
     // a small program with a few labels; it is never run to completion here
     let mut items = vec![Item::Orig(orig as i32)];
     let names = ["first", "mid", "data", "last"];
@@ -81,7 +104,8 @@ fn one_case(seed: u64, i: u64, n_sessions: u64, sweep_all: bool) -> CaseOut {
     let mut out = CaseOut::new();
     let mut rng = Rng::for_case(seed, "C13", i);
     let stack = rng.bool();
-    let orig: u16 = match rng.below(6) {
+    let orig: u16 = match rng.below(7) {
+        6 => 0xFDF0,
         0 => 0x3000,
         1 => 0x7FF0 + rng.below(0x20) as u16, // image straddles 0x8000
         2 => 0x8000 + rng.below(0x6000) as u16,
@@ -90,6 +114,9 @@ fn one_case(seed: u64, i: u64, n_sessions: u64, sweep_all: bool) -> CaseOut {
         _ => gen_origin(&mut rng).clamp(1, 0xFD00) as u16,
     };
     out.class(if orig >= 0x8000 { "origin_high" } else { "origin_low" });
+    if orig == 0xFDF0 {
+        out.class("predefined_breakpoint_outside_user_space");
+    }
     let (text, img) = program(&mut rng, orig);
     let labels: Vec<(String, u16)> = img.labels.iter().map(|(n, idx)| (n.clone(), orig + *idx as u16)).collect();
 
@@ -112,6 +139,7 @@ fn one_case(seed: u64, i: u64, n_sessions: u64, sweep_all: bool) -> CaseOut {
         };
         let (addr, tag) = match forced {
             Some(a) => (a, None),
+            None if orig == 0xFDF0 && rng.chance(1, 5) => (0xFE00, Some("addr:xFE00")),
             None => boundary_addr(&mut rng, orig),
         };
         if let Some(t) = tag {
